@@ -215,6 +215,9 @@ func (w *World) runRealClientCaller(ci int, c *rpc.Client) {
 			w.waitAsync(cr)
 		case "sleep":
 			simrt.Sleep(time.Duration(op.N) * time.Microsecond)
+		case "fallback":
+			c.Fallback(time.Duration(op.N) * time.Microsecond)
+			w.Probe("fallback-pending")
 		}
 	}
 }
@@ -300,6 +303,13 @@ func genC20(r *simrt.Rand, tier string, idx uint64) *Plan {
 				cp.Ops = append(cp.Ops, op)
 			}
 			p.Clients = append(p.Clients, cp)
+		}
+		if r.Chance(1, 3) {
+			// a Fallback pause still pending when the Client is closed
+			p.Clients = append(p.Clients, ClientPlan{Ops: []Op{{Kind: "sleep", N: 1000 * r.Intn(200)}, {Kind: "fallback", N: 1000 * (500 + r.Intn(30000))}}})
+			if p.Params["work_ms"] < 50 {
+				p.Params["work_ms"] = 50 + r.Intn(1500)
+			}
 		}
 		if r.Chance(1, 4) {
 			// nobody listens at all: callers wait in the Client
